@@ -194,13 +194,19 @@ def run(model: Model, rep: Report) -> None:
     from .c07 import char_width_rule
 
     char_width_rule(model, rep, "C05-R9")
-    r8 = rep.rule("C05-R8", "WRITESET", "content spread over several streams: refilling carries the scanner state and inserts nothing", 1)
+    r8 = rep.rule("C05-R8", "WRITESET", "content spread over several streams: refilling carries the scanner state and inserts nothing", 2)
     fb = model.func(PI + "PDFContentParser.fillbuf")
     w = set(self_fields_written(fb))
     calls = {dotted(c.func) or "" for c in walk_no_nested(fb.node) if isinstance(c, ast.Call)}
     bad_w = w - {"bufpos", "buf", "charpos", "fp"}
     bad_c = {c for c in calls if c.endswith(".seek") or c.endswith("reset") or c.startswith("self._parse")}
     r8.check(not bad_w and not bad_c, site(fb), fb.qualname, "PDFContentParser.fillbuf writes only {fp, bufpos, buf, charpos} and never reseeks/resets the tokenizer", why=f"writes {sorted(bad_w)} calls {sorted(bad_c)}")
+    ff = model.func(PI + "PDFContentParser.fillfp")
+    w2 = set(self_fields_written(ff))
+    calls2 = {dotted(c.func) or "" for c in walk_no_nested(ff.node) if isinstance(c, ast.Call)}
+    bad_w2 = w2 - {"fp", "istream"}
+    bad_c2 = {c for c in calls2 if c.endswith(".seek") or c.endswith("reset") or c.startswith("self._parse") or c.endswith("flush")}
+    r8.check(not bad_w2 and not bad_c2, site(ff), ff.qualname, "PDFContentParser.fillfp (switching to the next stream) writes only {fp, istream}: the lexical state and a pending token are carried over", why=f"writes {sorted(bad_w2)} calls {sorted(bad_c2)}: a token that is still open at the end of one stream (a number, a name, a keyword without trailing white space) would be dropped or cut at the stream boundary")
 
 
 def _need(f: Optional[FuncInfo], op: str) -> FuncInfo:
